@@ -284,6 +284,117 @@ def r2(ctx):
     ctx.floor(rule, n, "C03.R2.variants")
 
 
+POSITION_CALLS = ("with_write_position_at", "with_read_position_at")
+
+
+def _is_param(ex, name):
+    e = X.strip(ex)
+    while e[0] in ("ref", "deref", "mut"):
+        e = X.strip(e[1])
+    return e[0] == "param" and e[2] == name
+
+
+def _closure_passed_at(P, parent, closure):
+    """(call site the closure is handed to, index of the argument) in the creating body"""
+    O = X.Origins(parent, P)
+    for cs in parent.calls():
+        for i, a in enumerate(O.call_args(cs)):
+            if a[0] == "agg" and a[1] == "closure" and a[2] == closure.path:
+                return cs, i, O
+    return None, None, O
+
+
+def conditioned_on(P, root, body, bb, pname, depth=0):
+    """is block `bb` of `body` (the function `root` or one of its closures) executed only when root's parameter `pname` is true?
+    Understands `if p`, match guards, and `opt.filter(|_| p).map(|x| ..)`."""
+    if depth > 4:
+        return False
+    O = X.Origins(body, P)
+    for s_bb, ex, val in R.path_conditions(body, O, bb):
+        e = R.in_root_terms(P, body, ex) if body is not root else ex
+        if _is_param(e, pname) and val:
+            return True
+    if body is root:
+        return False
+    parent = P.bodies.get("%s::%s" % (body.crate, body.parent or ""))
+    if parent is None:
+        return False
+    cs, i, Op = _closure_passed_at(P, parent, body)
+    if cs is None:
+        return False
+    args = Op.call_args(cs)
+    if cs.name in ("map", "and_then", "for_each", "inspect", "map_or", "map_or_else", "is_some_and") and args:
+        recv = X.strip(args[0])
+        # receiver filtered by a predicate closure: the mapped closure runs only where the predicate holds
+        while recv[0] == "call" and X.last_seg(recv[1] or "") in ("as_mut", "as_ref", "as_deref", "as_deref_mut", "iter", "iter_mut", "take"):
+            recv = X.strip(recv[3][0])
+        if recv[0] == "call" and X.last_seg(recv[1] or "") == "filter" and len(recv[3]) == 2:
+            pc = recv[3][1]
+            if pc[0] == "agg" and pc[1] == "closure":
+                pb = P.bodies.get("%s::%s" % (body.crate, pc[2]))
+                if pb is not None:
+                    Ob = X.Origins(pb, P)
+                    rets = [Ob.rvalue(d[3], d[0], d[1], 0) for d in pb.defs.get(0, ()) if d[2] == "assign"]
+                    if rets and all(_is_param(R.in_root_terms(P, pb, r), pname) for r in rets):
+                        return True
+    return conditioned_on(P, root, parent, cs.bb, pname, depth + 1)
+
+
+def r9(ctx, rule="C03.R9"):
+    ctx.rule(rule, "presence slots are consumed under the same condition on both sides: in every arm of Scope::write_into_field and "
+                   "Scope::read_from_field each access of the presence bitmap (with_write_position_at / with_read_position_at, also in "
+                   "closures and in expanded helpers) is either unconditional or conditional on `is_opt` on *both* sides - a reader that "
+                   "consumes a slot for every root field while the writer reserves one per OPTIONAL/DEFAULT field misreads every "
+                   "extensible SEQUENCE whose extension bit is set")
+    P = ctx.program()
+    try:
+        w = P.one("asn1rs", "rw::uper::Scope::write_into_field")
+        r = P.one("asn1rs", "rw::uper::Scope::read_from_field")
+    except KeyError as e:
+        ctx.fail(rule, "anchor-lost", str(e))
+        return
+    res = {}
+    n = 0
+    for side, b in (("writer", w), ("reader", r)):
+        O = X.Origins(b, P)
+        arms = [a for a in R.match_tables(P, b, O) if len(a.path) == 1 and a.path[0][0] == "$1"]
+        if not any(nm == "is_opt" for nm in b.param_names().values()):
+            ctx.fail(rule, side + "#anchor-lost:is_opt", "%s has no parameter `is_opt`" % b.path, "%s:%d" % (b.file, b.line))
+            return
+        for body in [b] + P.closures_of(b):
+            Ob = O if body is b else X.Origins(body, P)
+            for cs in body.calls():
+                if cs.name not in POSITION_CALLS:
+                    continue
+                # the arm: directly, or through the chain of closure creations
+                anchor_body, anchor_bb = body, cs.bb
+                while anchor_body is not b:
+                    parent = P.bodies.get("%s::%s" % (anchor_body.crate, anchor_body.parent or ""))
+                    if parent is None:
+                        break
+                    created = [bb for bb, j, st in parent.all_statements() if st["k"] == "assign" and st["rv"]["k"] == "agg"
+                               and st["rv"].get("ak") == "closure" and st["rv"]["def"] == anchor_body.path]
+                    if not created:
+                        break
+                    anchor_body, anchor_bb = parent, created[0]
+                arm = [a.path[0][1] for a in arms if anchor_body is b and anchor_bb in a.blocks]
+                if not arm:
+                    continue
+                pos = F.rd(R.positional(R.in_root_terms(P, body, Ob.call_args(cs)[1]) if body is not b else Ob.call_args(cs)[1]))
+                kind = "ext_bit" if "bit_pos" in pos else "presence_range"
+                cond = conditioned_on(P, b, body, cs.bb, "is_opt")
+                n += 1
+                res.setdefault(arm[0], {}).setdefault(side, set()).add((kind, "if is_opt" if cond else "always"))
+    for v in sorted(res):
+        ws, rs = res[v].get("writer", set()), res[v].get("reader", set())
+        detail = {"variant": v, "writer": sorted(ws), "reader": sorted(rs)}
+        if ws != rs:
+            ctx.fail(rule, v, "Scope::%s: the writer touches the presence bitmap %s, the reader %s" % (v, sorted(ws), sorted(rs)), "src/rw/uper.rs", detail)
+        else:
+            ctx.ok(rule, v, detail)
+    ctx.floor(rule, n, rule + ".accesses")
+
+
 def r3(ctx):
     from . import c01
     rule = "C03.R3"
@@ -506,3 +617,4 @@ def run(ctx):
     # the OPTIONAL / DEFAULT wrappers hide the enclosing scope on both sides while the value is transferred
     from .c01 import r2 as wrapper_symmetry
     wrapper_symmetry(ctx, rule="C03.R8", kinds=("opt", "default"))
+    r9(ctx)
